@@ -179,6 +179,9 @@ Proof. intros G. pose proof G as [H1 H2 H3 H4 H5]. unfold snap_persist. destruct
 Lemma core_restore lg nd s : node_core lg nd -> snap_strict lg s -> node_core lg (restore s nd).
 Proof. intros [H1 H2 H3 H4 H5] [S1 S2]. unfold restore. rewrite H2. constructor; cbn; auto.
   rewrite restore_onto_id; auto. rewrite S2. apply sorted_replay. Qed.
+Lemma core_install lg nd s : node_core lg nd -> snap_strict lg s -> node_core lg (install s nd).
+Proof. intros [H1 H2 H3 H4 H5] [S1 S2]. unfold install. rewrite H2. constructor; cbn; auto.
+  rewrite restore_onto_id; auto. rewrite S2. apply sorted_replay. Qed.
 Lemma core_restart lg nd : node_core lg nd -> node_core lg (restart nd).
 Proof. intros [H1 H2 H3 H4 H5]. unfold restart. constructor; cbn; auto. lia. Qed.
 
@@ -405,14 +408,19 @@ Proof. intros I. cbn [step]. apply inv_upd; auto. intros P. pose proof P as [H1 
 (* ORestore: of a snapshot that is the replay of the prefix it is labelled with *)
 Lemma sim_restore cl lg sn n src k s : inv cmds cl lg sn ->
   nth_error (snaps (getn src cl)) k = Some s -> snap_strict (log cl) s ->
-  inv cmds (step cl (MRestore n src k)) lg (supd n (fun x => mksnode (fst s) (s_hist x) (s_pending x) (s_labels x)) sn) /\
+  inv cmds (step cl (MRestore n src k)) lg
+      (supd n (fun x => mksnode (fst s) (s_hist x) (s_pending x) (if Nat.eqb src n then s_labels x else s_labels x ++ [fst s])) sn) /\
   (fst s <= length lg)%nat.
 Proof. intros I Es Hs.
   split; [|destruct Hs as [S1 _]; now rewrite <- (inv_len cl lg sn I)].
   cbn [step]. rewrite Es. apply inv_upd; auto. intros P. pose proof P as [H1 H2 H3 H4 H5 H6 H7].
-  pose proof H1 as [Hd Hcr _ _ _]. pose proof (core_restore _ _ s H1 Hs) as S1.
-  unfold restore in *. rewrite Hcr in *.
-  constructor; cbn [s_applied s_pending s_labels s_hist applied pending snaps inited calls]; auto. discriminate. Qed.
+  pose proof H1 as [Hd Hcr _ _ _]. pose proof (core_restore _ _ s H1 Hs) as S1. pose proof (core_install _ _ s H1 Hs) as S2.
+  destruct (Nat.eqb src n).
+  - unfold restore in *. rewrite Hcr in *.
+    constructor; cbn [s_applied s_pending s_labels s_hist applied pending snaps inited calls]; auto. discriminate.
+  - unfold install in *. rewrite Hcr in *.
+    constructor; cbn [s_applied s_pending s_labels s_hist applied pending snaps inited calls]; auto; [|discriminate].
+    now rewrite map_app, H4. Qed.
 
 (* ORestart *)
 Lemma sim_restart cl lg sn n : inv cmds cl lg sn ->
@@ -519,6 +527,24 @@ Proof. intros I R. pose proof (pi_core _ _ _ (inv_get cmds cl lg sn (nn n) I)) a
     constructor; rewrite ?of_nat_nn; cbn [pending snaps applied]; auto.
     intros l Hl. destruct (R1 l Hl) as [b [Hb _]]. exists true. split; [eapply aget_touch_same; eauto|discriminate]. Qed.
 
+Lemma rec_install cl lg sn pend cnt late n s : inv cmds cl lg sn -> rec_inv (log cl) pend cnt late (nodes cl) ->
+  snap_strict (log cl) s ->
+  rec_inv (log cl) (touch n pend) (aput n (cnt_of n cnt + 1) cnt) late (upd (nn n) (install s) (nodes cl)).
+Proof. intros I R Hs. pose proof (pi_core _ _ _ (inv_get cmds cl lg sn (nn n) I)) as [_ Hcr _ _ _].
+  apply (rec_upd _ pend _ cnt _ late); auto.
+  - intros k Hk. now apply aget_touch_other.
+  - intros k Hk. now apply cnt_of_aput_other.
+  - intros x Ex [R1 R2 R3]. rewrite (getn_nth _ cl x Ex) in Hcr. unfold install. rewrite Hcr. rewrite of_nat_nn in *.
+    constructor; rewrite ?of_nat_nn; cbn [pending snaps applied].
+    + intros l Hl. destruct (R1 l Hl) as [b [Hb _]]. exists true. split; [eapply aget_touch_same; eauto|discriminate].
+    + rewrite cnt_of_aput_same, R2, app_length. cbn [length]. lia.
+    + intros k s0 Hs0 Hl. destruct (Nat.lt_ge_cases k (length (snaps x))) as [Hlt|Hge].
+      * rewrite nth_error_app1 in Hs0 by exact Hlt. now apply (R3 k s0 Hs0).
+      * assert (Hk : k = length (snaps x)).
+        { assert (k < length (snaps x ++ [s]))%nat by (apply nth_error_Some; congruence).
+          rewrite app_length in *. cbn [length] in *. lia. }
+        subst k. rewrite nth_error_app2, Nat.sub_diag in Hs0 by lia. cbn in Hs0. injection Hs0 as <-. exact Hs. Qed.
+
 Lemma rec_snapreq cl lg sn pend cnt late n (ok : bool) : inv cmds cl lg sn -> rec_inv (log cl) pend cnt late (nodes cl) ->
   Bool.eqb ok (match pending (getn (nn n) (step cl (MSnapReq (nn n)))) with Some _ => true | None => false end) = true ->
   rec_inv (log cl) (if ok then aput n false pend else pend) cnt late (upd (nn n) snap_req (nodes cl)).
@@ -614,7 +640,7 @@ Proof. intros [I R] Hk Hw Em Es El.
     destruct (sim_restore cl lg sn (nn n) (nn src) (nn kk) s I Esn Hs) as [I' A]. rewrite E1 in I', A.
     split; [intros _; now apply Nat.leb_le|]. right.
     split; [|split; [reflexivity|now rewrite step_nodes_length]]. split; [exact I'|].
-    cbn [step]. rewrite Esn. cbn [log nodes]. eapply rec_restore; eauto.
+    cbn [step]. rewrite Esn. cbn [log nodes]. destruct (Nat.eqb (nn src) (nn n)); [eapply rec_restore; eauto|eapply rec_install; eauto].
   - (* ORestart *) split_model Em Eok. injection Es as <- <- <-. injection El as <- <- <-.
     split; [reflexivity|]. right.
     split; [|split; [reflexivity|now rewrite step_nodes_length]]. split; [now apply sim_restart|].
@@ -714,6 +740,8 @@ Proof. unfold apply_entry. destruct (crashed nd); [reflexivity|].
     repeat match goal with |- context [if ?b then _ else _] => destruct b end; reflexivity. Qed.
 Lemma pending_restore s nd : pending (restore s nd) = pending nd.
 Proof. unfold restore. destruct (crashed nd); reflexivity. Qed.
+Lemma pending_install s nd : pending (install s nd) = pending nd.
+Proof. unfold install. destruct (crashed nd); reflexivity. Qed.
 
 Lemma pending_getn_upd lg f n i l : (forall x, pending (f x) = pending x) ->
   pending (getn i (mkcluster lg (upd n f l))) = pending (nth i l node0).
@@ -731,7 +759,7 @@ Proof. destruct ev as [op|n|n|n|n src k|n]; intros H; try discriminate; cbn [ste
   - destruct (nth_error (log cl) (applied (getn n cl))) as [op|]; [|reflexivity].
     apply pending_getn_upd. intros x. apply pending_apply_entry.
   - destruct (nth_error (snaps (getn src cl)) k) as [s|]; [|reflexivity].
-    apply pending_getn_upd. intros x. apply pending_restore. Qed.
+    apply pending_getn_upd. intros x. destruct (Nat.eqb src n); [apply pending_restore|apply pending_install]. Qed.
 (* the other events touch one replica *)
 Lemma pending_step_other cl ev m i : (match ev with MSnapReq x | MPersist x | MRestart x => Nat.eqb x m | _ => false end) = true ->
   m <> i -> pending (getn i (step cl ev)) = pending (getn i cl).
@@ -885,8 +913,8 @@ Proof.
   - split; cbn [log nodes]; auto. apply Forall_upd; auto. intros x _ [[G1 [G2 G3]] G4]. unfold snap_persist.
     destruct (pending x); (split; [repeat split; auto|exact G4]).
   - destruct (nth_error (snaps (getn src cl)) k) as [s|]; [|split; auto].
-    split; cbn [log nodes]; auto. apply Forall_upd; auto. intros x _ [[G1 [G2 G3]] G4]. unfold restore. rewrite G2.
-    split; [repeat split; auto|cbn [inited]; discriminate].
+    split; cbn [log nodes]; auto. apply Forall_upd; auto. intros x _ [[G1 [G2 G3]] G4].
+    destruct (Nat.eqb src n); [unfold restore|unfold install]; rewrite G2; (split; [repeat split; auto|cbn [inited]; discriminate]).
   - split; cbn [log nodes]; auto. apply Forall_upd; auto. intros x _ _. split; [repeat split; auto|reflexivity].
 Qed.
 Lemma run_sane2 es : forall cl, forallb good_op (log cl) = true -> Forall node_sane2 (nodes cl) -> forallb clean_ev es = true ->
@@ -939,7 +967,7 @@ Proof.
       by (unfold nodes2; now rewrite nth_error_upd, Nat.eqb_refl, E2).
     assert (Eg : getn n (mkcluster (log cl) (upd n restart nodes2)) = restart (snap_persist (snap_req nd)))
       by (unfold getn; cbn [nodes]; now apply nth_error_nth).
-    rewrite Eg, Ep. cbn [restart snaps]. rewrite Hk.
+    rewrite Eg, Ep. cbn [restart snaps]. rewrite Hk, Nat.eqb_refl.
     rewrite getn_upd_same, E3, Ep. unfold restore. cbn [restart crashed st applied fst snd].
     split; [rewrite restore_onto_id by exact Hsorted; exact S2|reflexivity].
 Qed.
@@ -1068,6 +1096,11 @@ Proof. induction lg as [|x r IH]; intros j H; [destruct j; discriminate|]. cbn [
   destruct (N.eqb_spec x c) as [->|Hne]; [exists O; auto|].
   destruct j as [|j]; [cbn in H; congruence|]. destruct (IH j H) as [j0 [E1 E2]]. rewrite E1. exists (S j0). auto. Qed.
 
+Lemma sgetn_supd_applied i f g a : (forall s, s_applied (f s) = a) -> forall sn,
+  s_applied (sgetn i (supd i f (supd i g sn))) = a \/ (i >= length sn)%nat.
+Proof. intros Hf. induction i as [|i IH]; intros [|y r]; cbn [supd sgetn nth length]; auto; try (right; lia).
+  destruct (IH r) as [E|E]; [left; exact E|right; lia]. Qed.
+
 (* for every trace the monitor accepts: an operation acknowledged at n before Shutdown returned on n is in the committed sequence
    below the label lb of the snapshot n leaves on disk; what OfflineState returns right afterwards is the pinset
    replay (firstn lb ops), which holds the operation's effect for the cid it writes unless an entry between it and lb writes the
@@ -1107,10 +1140,9 @@ Proof. intros Hp H Hw. apply (monitor_sound_l k cmds _ Hp) in H.
     cbn [trace_spec] in H. destruct H as [_ H]. cbn [spec_step fst snd ack_step] in H.
     cbn [trace_spec] in H. destruct H as [_ H]. cbn [spec_step fst snd ack_step] in H.
     cbn [trace_spec] in H. destruct H as [Hobs _]. cbn [event_spec] in Hobs. destruct Hobs as [l' [-> [m [Hm ->]]]].
-    assert (Ea : s_applied (sgetn (nn n) (supd (nn n) (fun s => mksnode (nn lbl) (s_hist s) (s_pending s) (s_labels s))
+    assert (Ea : s_applied (sgetn (nn n) (supd (nn n) (fun s => mksnode (nn lbl) (s_hist s) (s_pending s) (if Nat.eqb (nn src) (nn n) then s_labels s else s_labels s ++ [nn lbl]))
                    (supd (nn n) (fun s => mksnode 0 (s_hist s) None (s_labels s)) sn3))) = nn lbl \/ (nn n >= length sn3)%nat).
-    { clear. revert sn3. induction (nn n) as [|i IH]; intros [|y r]; cbn [supd sgetn nth length s_applied]; auto; try (right; lia).
-      destruct (IH r) as [E|E]; [left; exact E|right; cbn [length]; lia]. }
+    { apply sgetn_supd_applied. intros s0. reflexivity. }
     exists m. fold ops. destruct Ea as [Ea|Ea].
     + rewrite Ea in Hm. split; [lia|]. split; [reflexivity|]. intros Hs. eapply last_write_visible; eauto. lia.
     + exfalso. assert (E0 : sgetn (nn n) sn3 = snode0) by (unfold sgetn; apply nth_overflow; lia).
